@@ -79,7 +79,9 @@ def one_run(ctx, lc, tid, seq, req, nflat, flatcrit_milli, conv_j, seed, budget,
             if budget_hit and i + 1 == len(steps):
                 e["u"] = None
                 continue
-            raise tlc.MachineryError("acceptance draw not found for step %d" % i)
+            # no uniform draw after the one that chose the move: the decision cannot have been an independent Bernoulli(p) trial
+            e["u"] = "missing"
+            continue
         e["u"] = log[q][1]
     ev = []
     init = events[0]
@@ -93,6 +95,14 @@ def one_run(ctx, lc, tid, seq, req, nflat, flatcrit_milli, conv_j, seed, budget,
         if e["ev"] == "step":
             if e.get("u") is None:
                 break
+            if e["u"] == "missing":
+                if e["skip"] or (e["acceptProb"] >= 1 and e["acc"]):
+                    e["u"] = 0.0          # nothing to decide (out of range, or p = 1 and accepted)
+                else:
+                    ctx.violation("acceptance-decision", dict(case, step=e["nstep"], acceptProb=e["acceptProb"], accepted=e["acc"]),
+                                  expected="accepted iff u < p for a uniform draw u made for this decision",
+                                  actual="no draw between the proposal and the decision (the draw that chose the move is reused?)")
+                    return None
             p_ = Fraction(e["acceptProb"])
             ev.append({"ev": "step", "from": list(e["from"]), "idx_from": e["idx_from"], "prop": list(e["prop"]), "knew": common.fx(e["knew"]),
                        "idx_new": e["idx_new"], "skip": e["skip"], "acc": e["acc"], "cur": list(e["cur"]), "idx_old": e["idx_old"],
